@@ -760,3 +760,366 @@ Proof.
   pose proof (grow_cap_N_mono (N.of_nat a) (N.of_nat b) ltac:(lia)). lia.
 Qed.
 Print Assumptions grow_cap_mono.
+
+(* ================================================================= Regex *)
+
+(* ---- structural equality is sound, so deduplication does not change acceptance ---- *)
+
+Lemma list_eqb_eq : forall A (eqb : A -> A -> bool),
+  (forall x y, eqb x y = true -> x = y) ->
+  forall a b, list_eqb eqb a b = true -> a = b.
+Proof.
+  intros A eqb Hsound. induction a as [|x a IH]; intros [|y b] H; cbn [list_eqb] in H;
+    try discriminate; [reflexivity|].
+  apply andb_true_iff in H. destruct H as [H1 H2]. f_equal; auto.
+Qed.
+
+Lemma citem_eqb_eq : forall a b, citem_eqb a b = true -> a = b.
+Proof.
+  intros [l1 h1|n1 k1] [l2 h2|n2 k2] H; cbn [citem_eqb] in H; try discriminate.
+  - apply andb_true_iff in H. destruct H as [H1 H2].
+    apply N.eqb_eq in H1. apply N.eqb_eq in H2. now subst.
+  - apply andb_true_iff in H. destruct H as [H1 H2].
+    apply Bool.eqb_prop in H1. subst. destruct k1, k2; try discriminate; reflexivity.
+Qed.
+
+Lemma opt_N_eqb_eq : forall a b, opt_N_eqb a b = true -> a = b.
+Proof.
+  intros [x|] [y|] H; cbn [opt_N_eqb] in H; try discriminate; [|reflexivity].
+  apply N.eqb_eq in H. now subst.
+Qed.
+
+Lemma re_eqb_eq : forall a b, re_eqb a b = true -> a = b.
+Proof.
+  induction a as [|c| |n1 i1| | |a1 IH1 a2 IH2|a1 IH1 a2 IH2|a1 IH1|a1 IH1|a1 IH1 m1 x1];
+    intros b H; destruct b; cbn [re_eqb] in H; try discriminate; try reflexivity;
+    repeat match goal with
+           | Hc : _ && _ = true |- _ => apply andb_true_iff in Hc; destruct Hc
+           end.
+  - apply N.eqb_eq in H. now subst.
+  - match goal with Hb : Bool.eqb _ _ = true |- _ => apply Bool.eqb_prop in Hb end.
+    match goal with Hl : list_eqb _ _ _ = true |- _ =>
+      apply (list_eqb_eq _ _ citem_eqb_eq) in Hl end. now subst.
+  - f_equal; auto.
+  - f_equal; auto.
+  - f_equal; auto.
+  - f_equal; auto.
+  - match goal with Hn : (_ =? _) = true |- _ => apply N.eqb_eq in Hn end.
+    match goal with Ho : opt_N_eqb _ _ = true |- _ => apply opt_N_eqb_eq in Ho end.
+    subst. f_equal; auto.
+Qed.
+
+Lemma existsb_add_state : forall f k l,
+  existsb f (add_state k l) = f k || existsb f l.
+Proof.
+  intros f k l. unfold add_state.
+  destruct (existsb (list_eqb re_eqb k) l) eqn:E; [|reflexivity].
+  apply existsb_exists in E. destruct E as (k' & Hin & Heq).
+  apply (list_eqb_eq _ _ re_eqb_eq) in Heq. subst k'.
+  destruct (f k) eqn:Hf; [|reflexivity].
+  cbn [orb]. apply existsb_exists. eauto.
+Qed.
+
+Lemma existsb_dedup : forall f l, existsb f (dedup l) = existsb f l.
+Proof.
+  intros f. induction l as [|k l IH]; [reflexivity|].
+  unfold dedup in *. cbn [fold_right existsb]. rewrite existsb_add_state. now rewrite IH.
+Qed.
+
+Lemma existsb_flat_map : forall A B (f : B -> bool) (g : A -> list B) l,
+  existsb f (flat_map g l) = existsb (fun x => existsb f (g x)) l.
+Proof.
+  intros A B f g. induction l as [|x l IH]; [reflexivity|].
+  cbn [flat_map existsb]. rewrite existsb_app. now rewrite IH.
+Qed.
+
+Lemma existsb_orb : forall A (f g : A -> bool) l,
+  existsb (fun x => f x || g x) l = existsb f l || existsb g l.
+Proof.
+  intros A f g. induction l as [|x l IH]; [reflexivity|].
+  cbn [existsb]. rewrite IH.
+  destruct (f x), (g x), (existsb f l), (existsb g l); reflexivity.
+Qed.
+
+(* ---- what `search` computes, in terms of single states ----
+   accepts_seq st k cs: the state k (a sequence of regexps) matches some PREFIX of cs. *)
+Fixpoint accepts_seq (st : bool) (k : list re) (cs : list N) : bool :=
+  match cs with
+  | [] => nullable_seq st true k
+  | c :: cs' =>
+      nullable_seq st false k ||
+      existsb (fun k' => accepts_seq false k' cs') (pd_seq st c k)
+  end.
+
+(* some suffix of cs has a prefix matched by r (st: cs starts at the start of the text) *)
+Fixpoint search_fresh (r : re) (st : bool) (cs : list N) : bool :=
+  accepts_seq st [r] cs ||
+  match cs with
+  | [] => false
+  | _ :: cs' => search_fresh r false cs'
+  end.
+
+Theorem search_spec : forall r cs st states,
+  search r st states cs =
+  existsb (fun k => accepts_seq st k cs) states || search_fresh r st cs.
+Proof.
+  intros r. induction cs as [|c cs IH]; intros st states.
+  - cbn [search search_fresh accepts_seq]. rewrite existsb_add_state.
+    destruct (nullable_seq st true [r]), (existsb (nullable_seq st true) states); reflexivity.
+  - cbn [search search_fresh]. rewrite IH. rewrite existsb_dedup, existsb_flat_map.
+    rewrite !existsb_add_state.
+    change (existsb (fun k => accepts_seq st k (c :: cs)) states)
+      with (existsb (fun k => nullable_seq st false k ||
+                              existsb (fun k' => accepts_seq false k' cs) (pd_seq st c k)) states).
+    rewrite existsb_orb.
+    change (accepts_seq st [r] (c :: cs))
+      with (nullable_seq st false [r] ||
+            existsb (fun k' => accepts_seq false k' cs) (pd_seq st c [r])).
+    destruct (nullable_seq st false [r]),
+             (existsb (nullable_seq st false) states),
+             (existsb (fun k' => accepts_seq false k' cs) (pd_seq st c [r])),
+             (existsb (fun x => existsb (fun k' => accepts_seq false k' cs) (pd_seq st c x)) states),
+             (search_fresh r false cs); reflexivity.
+Qed.
+Print Assumptions search_spec.
+
+Corollary search_initial : forall r cs, search r true [] cs = search_fresh r true cs.
+Proof. intros r cs. rewrite search_spec. reflexivity. Qed.
+
+(* ---- literal patterns ---- *)
+
+Fixpoint chain (l : list re) : re :=
+  match l with
+  | [] => Eps
+  | x :: l' => match l' with [] => x | _ :: _ => Cat x (chain l') end
+  end.
+
+Definition lit_state (q : list N) : list re :=
+  match q with
+  | [] => []
+  | _ :: _ => [chain (map Chr q)]
+  end.
+
+Lemma pd_seq_lit : forall st c c' q',
+  pd_seq st c (lit_state (c' :: q')) = if c =? c' then [lit_state q'] else [].
+Proof.
+  intros st c c' q'. destruct q' as [|d q''].
+  - cbn [lit_state map chain pd_seq pd nullable]. destruct (c =? c'); reflexivity.
+  - cbn [lit_state map chain pd_seq pd nullable andb]. destruct (c =? c'); reflexivity.
+Qed.
+
+Lemma nullable_lit : forall st en c' q', nullable_seq st en (lit_state (c' :: q')) = false.
+Proof. intros st en c' [|d q'']; reflexivity. Qed.
+
+Lemma accepts_lit : forall cs q st, accepts_seq st (lit_state q) cs = is_prefix q cs.
+Proof.
+  induction cs as [|c cs IH]; intros q st.
+  - destruct q as [|c' q']; [reflexivity|].
+    cbn [accepts_seq is_prefix]. apply nullable_lit.
+  - destruct q as [|c' q']; [reflexivity|].
+    cbn [accepts_seq is_prefix]. rewrite nullable_lit, pd_seq_lit. cbn [orb].
+    rewrite (N.eqb_sym c' c). destruct (c =? c'); [|reflexivity].
+    cbn [existsb andb]. rewrite IH. apply orb_false_r.
+Qed.
+
+Lemma accepts_chain : forall p st cs,
+  accepts_seq st [chain (map Chr p)] cs = is_prefix p cs.
+Proof.
+  intros [|c' q'] st cs.
+  - destruct cs; reflexivity.
+  - apply (accepts_lit cs (c' :: q') st).
+Qed.
+
+Lemma search_fresh_literal : forall p cs st,
+  search_fresh (chain (map Chr p)) st cs = occurs p cs.
+Proof.
+  intros p. induction cs as [|c cs IH]; intros st; cbn [search_fresh occurs];
+    rewrite accepts_chain; [reflexivity|]. now rewrite IH.
+Qed.
+
+(* ---- the parser on a pattern of ASCII letters / digits ---- *)
+
+Lemma chain_snoc : forall init last, chain (init ++ [last]) = fold_right Cat last init.
+Proof.
+  induction init as [|a init IH]; intros last; [reflexivity|].
+  cbn [app fold_right]. cbn [chain].
+  destruct (init ++ [last]) as [|y m] eqn:E.
+  - destruct init; discriminate.
+  - rewrite <- E. now rewrite IH.
+Qed.
+
+Lemma fold_left_cat_rev : forall l x,
+  fold_left (fun acc y => Cat y acc) (rev l) x = fold_right Cat x l.
+Proof.
+  induction l as [|a l IH]; intros x; [reflexivity|].
+  cbn [rev]. rewrite fold_left_app. cbn [fold_left fold_right]. now rewrite IH.
+Qed.
+
+Lemma mk_cat_rev : forall l, mk_cat (rev l) = chain l.
+Proof.
+  intros l. destruct (exists_last (l := l)) as [H|]; [| |].
+Abort.
+
+Lemma mk_cat_rev : forall l, mk_cat (rev l) = chain l.
+Proof.
+  intros l. induction l as [|last init _] using rev_ind; [reflexivity|].
+  rewrite rev_app_distr. cbn [rev app mk_cat].
+  rewrite fold_left_cat_rev. symmetry. apply chain_snoc.
+Qed.
+
+Lemma parse_atoms : forall l cur last prod,
+  parse_tokens (map TAtom l) [] cur [] last prod = POk (mk_cat (rev l ++ cur)) prod.
+Proof.
+  induction l as [|a l IH]; intros cur last prod.
+  - reflexivity.
+  - cbn [map parse_tokens]. rewrite IH. cbn [rev]. now rewrite <- app_assoc.
+Qed.
+
+Lemma alnum_props : forall b, is_alnum b = true ->
+  b < 128 /\ b <> 40 /\ b <> 41 /\ b <> 124 /\ b <> 94 /\ b <> 36 /\ b <> 46 /\ b <> 42 /\
+  b <> 43 /\ b <> 63 /\ b <> 91 /\ b <> 123 /\ b <> 92.
+Proof.
+  intros b H. unfold is_alnum, is_ascii_digit, is_ascii_upper, is_ascii_lower in H. lia.
+Qed.
+
+Lemma next_rune_ascii : forall b t, b < 128 -> next_rune (b :: t) = Some (b, t).
+Proof.
+  intros b t H. unfold next_rune, utf8_decode_one.
+  destruct (b <? 128) eqn:E; [|lia].
+  destruct ((b =? rune_error) && Nat.eqb 1 1) eqn:E2; [unfold rune_error in E2; lia|].
+  reflexivity.
+Qed.
+
+Lemma tokenize_alnum : forall p fuel,
+  forallb is_alnum p = true -> (length p < fuel)%nat ->
+  tokenize fuel p = map (fun c => TAtom (Chr c)) p.
+Proof.
+  induction p as [|b t IH]; intros fuel Hal Hlen.
+  - destruct fuel; [cbn [length] in Hlen; lia | reflexivity].
+  - destruct fuel as [|f]; [lia|].
+    cbn [forallb] in Hal. apply andb_true_iff in Hal. destruct Hal as [Hb Ht].
+    destruct (alnum_props b Hb) as (H0 & H1 & H2 & H3 & H4 & H5 & H6 & H7 & H8 & H9 & H10 & H11 & H12).
+    cbn [tokenize map].
+    rewrite (proj2 (N.eqb_neq b 40) H1), (proj2 (N.eqb_neq b 41) H2),
+            (proj2 (N.eqb_neq b 124) H3), (proj2 (N.eqb_neq b 94) H4),
+            (proj2 (N.eqb_neq b 36) H5), (proj2 (N.eqb_neq b 46) H6),
+            (proj2 (N.eqb_neq b 42) H7), (proj2 (N.eqb_neq b 43) H8),
+            (proj2 (N.eqb_neq b 63) H9), (proj2 (N.eqb_neq b 91) H10),
+            (proj2 (N.eqb_neq b 123) H11), (proj2 (N.eqb_neq b 92) H12).
+    rewrite (next_rune_ascii b t H0). f_equal. apply IH; [assumption | cbn [length] in Hlen; lia].
+Qed.
+
+Lemma parse_pattern_alnum : forall p,
+  forallb is_alnum p = true -> parse_pattern p = POk (chain (map Chr p)) 1.
+Proof.
+  intros p Hal. unfold parse_pattern.
+  rewrite (tokenize_alnum p (S (length p)) Hal ltac:(lia)).
+  rewrite <- (map_map Chr TAtom). rewrite parse_atoms. rewrite app_nil_r.
+  now rewrite mk_cat_rev.
+Qed.
+
+(* ---- code points of the subject versus its bytes, for an ASCII needle ---- *)
+
+Lemma decode_ascii : forall b t, b < 128 -> utf8_decode_one (b :: t) = Some (b, 1%nat).
+Proof. intros b t H. unfold utf8_decode_one. destruct (b <? 128) eqn:E; [reflexivity | lia]. Qed.
+
+Lemma decode_high : forall b0 t r w,
+  128 <= b0 -> utf8_decode_one (b0 :: t) = Some (r, w) ->
+  128 <= r /\ forallb (fun b => 128 <=? b) (firstn (pred w) t) = true.
+Proof.
+  intros b0 t r w Hb H. unfold utf8_decode_one, dec_err, is_cont, in_range, rune_error in H.
+  cbv zeta in H.
+  repeat match type of H with
+         | context [if ?c then _ else _] =>
+             lazymatch c with
+             | context [if _ then _ else _] => fail
+             | _ => let E := fresh "E" in destruct c eqn:E
+             end
+         | context [match ?t with [] => _ | _ :: _ => _ end] => destruct t
+         end; inversion H; subst; cbn [pred firstn forallb]; split; try reflexivity; try lia;
+    repeat (apply andb_true_iff; split); try reflexivity; lia.
+Qed.
+
+Lemma is_prefix_high : forall p r t, forallb (fun c => c <? 128) p = true -> p <> [] ->
+  128 <= r -> is_prefix p (r :: t) = false.
+Proof.
+  intros [|x p] r t Hp Hne Hr; [congruence|].
+  cbn [forallb] in Hp. apply andb_true_iff in Hp. destruct Hp as [Hx _].
+  cbn [is_prefix]. destruct (x =? r) eqn:E; [lia | reflexivity].
+Qed.
+
+Lemma occurs_skip_high : forall p k t,
+  forallb (fun c => c <? 128) p = true -> p <> [] ->
+  forallb (fun b => 128 <=? b) (firstn k t) = true ->
+  occurs p t = occurs p (skipn k t).
+Proof.
+  intros p. induction k as [|k IH]; intros t Hp Hne Hk; [reflexivity|].
+  destruct t as [|b t]; [reflexivity|].
+  cbn [firstn forallb] in Hk. apply andb_true_iff in Hk. destruct Hk as [Hb Hk].
+  cbn [skipn occurs]. rewrite is_prefix_high by (assumption || lia). cbn [orb]. now apply IH.
+Qed.
+
+Lemma is_prefix_code_points : forall p fuel s,
+  forallb (fun c => c <? 128) p = true -> (length s <= fuel)%nat ->
+  is_prefix p (code_points_aux fuel s) = is_prefix p s.
+Proof.
+  induction p as [|x p IH]; intros fuel s Hp Hlen; [reflexivity|].
+  cbn [forallb] in Hp. apply andb_true_iff in Hp. destruct Hp as [Hx Hp].
+  destruct s as [|b t].
+  - destruct fuel; reflexivity.
+  - destruct fuel as [|f]; [cbn [length] in Hlen; lia|].
+    cbn [code_points_aux]. destruct (b <? 128) eqn:Eb.
+    + rewrite decode_ascii by lia. cbn [skipn is_prefix]. f_equal.
+      apply IH; [assumption | cbn [length] in Hlen; lia].
+    + destruct (utf8_decode_one (b :: t)) as [[r w]|] eqn:Hd.
+      * destruct (decode_high b t r w ltac:(lia) Hd) as [Hr _].
+        cbn [is_prefix]. destruct (x =? r) eqn:E1; destruct (x =? b) eqn:E2; try lia. reflexivity.
+      * apply decode_none in Hd. discriminate.
+Qed.
+
+Lemma occurs_code_points : forall p fuel s,
+  forallb (fun c => c <? 128) p = true -> (length s <= fuel)%nat ->
+  occurs p (code_points_aux fuel s) = occurs p s.
+Proof.
+  intros p. destruct p as [|x p'] eqn:Ep.
+  { intros fuel s _ _. destruct (code_points_aux fuel s), s; reflexivity. }
+  rewrite <- Ep. assert (p <> []) as Hne by (subst; discriminate). clear Ep.
+  induction fuel as [|f IH]; intros s Hp Hlen.
+  - destruct s; [reflexivity | cbn [length] in Hlen; lia].
+  - destruct s as [|b t]; [reflexivity|].
+    pose proof (is_prefix_code_points p (S f) (b :: t) Hp Hlen) as Hpre.
+    cbn [code_points_aux] in *. destruct (b <? 128) eqn:Eb.
+    + rewrite decode_ascii in * by lia. cbn [skipn] in *. cbn [occurs]. rewrite Hpre.
+      f_equal. apply IH; [assumption | cbn [length] in Hlen; lia].
+    + destruct (utf8_decode_one (b :: t)) as [[r w]|] eqn:Hd.
+      * destruct (decode_high b t r w ltac:(lia) Hd) as [Hr Hcont].
+        pose proof (decode_width _ _ _ Hd) as Hw.
+        cbn [occurs]. rewrite Hpre. f_equal.
+        destruct w as [|w']; [lia|]. cbn [skipn pred] in *.
+        rewrite IH by (assumption || (rewrite skipn_length; cbn [length] in Hlen; lia)).
+        symmetry. now apply occurs_skip_high.
+      * apply decode_none in Hd. discriminate.
+Qed.
+
+Lemma alnum_ascii : forall p, forallb is_alnum p = true -> forallb (fun c => c <? 128) p = true.
+Proof.
+  induction p as [|b t IH]; [reflexivity|]. cbn [forallb]. intros H.
+  apply andb_true_iff in H. destruct H as [Hb Ht].
+  destruct (alnum_props b Hb) as [H0 _]. rewrite (IH Ht).
+  destruct (b <? 128) eqn:E; [reflexivity | lia].
+Qed.
+
+(* a pattern made only of ASCII letters and digits matches exactly the subjects that contain it *)
+Theorem regex_literal : forall p s,
+  forallb is_alnum p = true ->
+  N.of_nat (length p) <= max_pattern_len ->
+  regex_match p s = RxMatch (occurs p s).
+Proof.
+  intros p s Hal Hlen. unfold regex_match, max_pattern_len, max_size_budget in *.
+  destruct (1000 <? N.of_nat (length p)) eqn:E1; [lia|].
+  rewrite (parse_pattern_alnum p Hal).
+  destruct (3000000 <=? 1 * (8 * N.of_nat (length p) + 16)) eqn:E2; [lia|].
+  f_equal. rewrite search_initial, search_fresh_literal.
+  unfold code_points. apply occurs_code_points; [now apply alnum_ascii | lia].
+Qed.
+Print Assumptions regex_literal.
